@@ -20,13 +20,13 @@ CHECKS = {
    "Held on K executions: standalone pools of both kinds under concurrent get/back (capacity 1..8) and the same monitor wrapped around the pool of real pipelines; short histories are checked with porcupine; a race report on event memory counts as double ownership.",
    "pointer identity identifies an event object; the wrapper delegates unchanged", "DESIGN.md §3 C05"),
  "C08": ("exploration", "runtime monitoring: recorded Add/send/OutFn/Commit history of the real Batcher judged by an offline oracle (size bounds, tick-based staleness, commit order, exactly-once, Stop races) under -race",
-   "Held on K executions of the real pipeline.Batcher driven through its exported API in child processes: batch size/byte bounds, staleness in heartbeat ticks (plus a wall-clock view that needs 3/3 solo confirmation), whole-batch in-order commits after OutFn returned, exactly-once, and Stop placed by a gate or at a drawn Add.",
+   "Held on K executions of the real pipeline.Batcher driven through its exported API in child processes: batch size/byte bounds, staleness in heartbeat ticks (plus a wall-clock view that needs 3/3 solo confirmation), whole-batch in-order commits after OutFn returned, exactly-once, and Stop placed by a gate or at a drawn Add. A second family wraps the Batcher in the real RetriableBatcher (failing sends, give-ups, dead-queue flag, Stop while retrying): no commit without a successful send or a give-up, nothing stuck after a dead-queued batch.",
    "hook points batcher.tick/batcher.afterUnlock only count/block", "DESIGN.md §3 C08"),
  "C11": ("exploration", "runtime monitoring: reference line splitter vs the real http input under exhaustive small-scope chunkings, gzip, large bodies, and concurrent requests under -race",
-   "Exhaustive over a small scope (all bodies over a 3-symbol alphabet up to length 7/9 x all read chunkings x EOF styles) plus seeded large bodies and concurrent requests; the recording controller and response writer share one logical clock.",
+   "Exhaustive over a small scope (all bodies over a 3-symbol alphabet up to length 7/9 x all read chunkings x EOF styles) plus seeded large bodies and concurrent requests; the recording controller and response writer share one logical clock. A third family runs the plugin on a real loopback listener, uploads a body in pieces over raw TCP and calls Stop at a rendezvous point: a 2xx answer implies the complete body was handed over.",
    "the recording controller copies data inside In; gzip writer of the stdlib is trusted", "DESIGN.md §3 C11"),
  "C12": ("exploration", "runtime monitoring: crash detection in child processes with command log, buffer canaries, and reference parsers for every decoder",
-   "Millions of generated/mutated lines per decoder and parameter set through Decode/DecodeToJson/DecodeCRI/DecodePostgres and Pipeline.In; totality (no crash, canaries intact), fidelity against independent reference parsers, json_max_fields_size postconditions.",
+   "Millions of generated/mutated lines per decoder and parameter set through Decode/DecodeToJson/DecodeCRI/DecodePostgres and Pipeline.In; totality (no crash, canaries intact), fidelity against independent reference parsers, json_max_fields_size postconditions. A size-gate boundary pass feeds records as sub-slices of a canaried reader buffer with max_event_size around the record length, cut-off on and off.",
    "reference parsers written from RFCs/readme; encoding/json is trusted for validity", "DESIGN.md §3 C12"),
  "C14": ("exploration", "runtime monitoring: naive three-valued reference evaluator vs real do_if checker and real match_fields path in a real pipeline; determinism re-evaluation",
    "Millions of (rule, event) pairs: decisions of doif.Checker.Check and of the real pipeline's action selection are compared with an evaluator written from the READMEs; pairs the docs leave open are only checked for determinism.",
@@ -35,34 +35,34 @@ CHECKS = {
    "Sequential histories are compared decision by decision with an independent dictionary model, concurrent ones with order-independent sums, and two-action pipelines against the same actions in separate pipelines.",
    "virtual clock installed through the verif accessor (same hook the package tests use)", "DESIGN.md §3 C16"),
  "C17": ("exploration", "runtime monitoring: reference rewrite model vs the real mask plugin in a real pipeline, child processes for crash attribution",
-   "Generated regexps/group selections/modes/field lists and events; output document, applied marks and metric counters compared with a model built on Go regexp submatch indexes.",
+   "Generated regexps/group selections/modes/field lists and events; output document, applied marks and metric counters compared with a model built on Go regexp submatch indexes. A metrics matrix crosses applied_metric_name (absent / custom / explicit empty) with per-mask metrics and reads the real registry.",
    "Go regexp is shared by both sides (the oracle is about the rewrite)", "DESIGN.md §3 C17"),
  "C18": ("exploration", "runtime monitoring: naive projection/subtraction on an order-preserving JSON tree vs the real keep_fields/remove_fields plugins in a real pipeline",
-   "Hundreds of thousands of (selector set, event) cases through the real config path; content and survivor key order compared separately.",
+   "Hundreds of thousands of (selector set, event) cases through the real config path; content and survivor key order compared separately. A history clause puts earlier real actions or direct tree mutations in front of the plugin (reference input recorded right before it), with a sweep over deletion counts and a twin run on the freshly decoded JSON.",
    "independent order-preserving JSON parser", "DESIGN.md §3 C18"),
  "C09": ("exploration", "runtime monitoring: per-batch retry/route oracle over recorded send attempts, give-ups, dead-queue hand-overs and commits of the real RetriableBatcher + Router inside real pipelines under -race",
    "Held on K recorded executions with scripted failure plans: failed sends before give-up >= retry+1, no give-up for negative retry, pauses above the randomised exponential lower envelope, no commit before the final send returned or gave up, on exhaustion every event handed to the dead queue exactly once and committed only after its acknowledgement, error callback once; includes Stop while retries are pending.",
    "pauses are lower bounds measured at the send boundary on the harness clock; the dead queue is a Batcher-based output that acknowledges", "DESIGN.md §3 C09"),
  "C20": ("exploration", "runtime monitoring: admission oracle over the real Pipeline.In (sizes, cut-off, decoders, PassEvent) and a possible-worlds reference model of the antispam counter mechanism over sequential and concurrent IsSpam/Maintenance histories",
-   "Part A: every record is classified refused/delivered(+cut, mark) by an oracle written from the settings' documentation and compared with what In returns and what reaches the output; Part B: antispam decisions compared with a reference that keeps every documented reading open and checks the count-based claims.",
+   "Part A: every record is classified refused/delivered(+cut, mark) by an oracle written from the settings' documentation and compared with what In returns and what reaches the output; Part B: antispam decisions compared with a reference that keeps every documented reading open and checks the count-based claims. Part A.live drives antispam histories through a started pipeline (maintenance rounds counted through a verif-tag tick hook); Part A.conc pushes the same records through In from 2-8 goroutines and compares with the sequential run.",
    "antispam README is the specification of the counter mechanism; no wall clock", "DESIGN.md §3 C20"),
  "C15": ("exploration", "runtime monitoring: per-(source,stream) reference model of run reassembly vs the real join / join_template / k8s-multiline actions inside real multi-processor pipelines under -race; time-out splits accepted only where the harness's own clock shows a feeder gap >= event_timeout",
-   "Each case is a real pipeline with several sources x streams over 1-16 processors; every output event is decided by a reference model (ids, joined bytes, order, no loss/duplicate/foreign bytes); lines carry source/stream/index tags.",
+   "Each case is a real pipeline with several sources x streams over 1-16 processors; every output event is decided by a reference model (ids, joined bytes, order, no loss/duplicate/foreign bytes); lines carry source/stream/index tags. The monitoring output reads events late (encodes again after 0-32 later events: must not have changed); joining actions also run with match conditions and non-matching events inside runs.",
    "Go regexp is shared for start/continue classification; pauses are measured in streamer heartbeat ticks", "DESIGN.md §3 C15"), "C06": ("exploration", "runtime monitoring: reference line splitter vs the real file-input worker/provider on real temp files (exhaustive small scope + seeded large cases + plugin-level sample)",
    "Every In(offset, data) call of the real worker.work is compared per source and read round with an independent line splitter, exhaustively over newline placements x buffer sizes x limits x append splits x resume modes, plus a directed family with write notifications inside a read round.",
    "accessor runs the real worker over jobs created and re-queued by the provider's own functions (build tag verif)", "DESIGN.md §3 C06"),
  "C07": ("fault_enumeration", "runtime monitoring with fault injection: round trip of job tables through the real offsetDB save/load, kill/error at every step of save, concurrent commits vs saves on a logical clock, strace syscall-order monitor (fsync before rename)",
-   "Enumerates crash points (5 protocol points) and I/O faults (injected errors, RLIMIT_FSIZE short write, strace-injected fsync EIO, ENOENT, EXDEV) of the save protocol for the file offsetDB and the generic offset package; after each the file on disk must load to the previous or the new snapshot.",
+   "Enumerates crash points (5 protocol points) and I/O faults (injected errors, RLIMIT_FSIZE short write, strace-injected fsync EIO, ENOENT, EXDEV) of the save protocol for the file offsetDB and the generic offset package; after each the file on disk must load to the previous or the new snapshot. A large-table matrix (64 KiB-900 KiB snapshots) injects an error or a kill at every write step and real short writes.",
    "process kill stands for a crash; power-loss durability is represented by the observed fsync-before-rename order only", "DESIGN.md §3 C07"),
  "C10": ("exploration", "runtime monitoring: the real kafka input against a loopback stub broker (kmsg), packing and frontier oracles over marked and broker-committed offsets under -race",
    "The real plugin runs unmodified (Start, group join, PollRecords, spread In, Commit, auto-commit) against an in-harness broker; every marked head and every OffsetCommit is checked against the handed records (topic/partition/epoch/offset+1) and against the set of finished records of the partition.",
    "the stub broker implements only the APIs the client uses; broker-side redelivery by a second consumer run is not exercised", "DESIGN.md §3 C10"),
  "C19": ("exploration", "runtime monitoring: independent framing parsers over payloads captured at the transport of the real output plugins (loopback HTTP/TCP sinks, target file, recording Kafka client)",
-   "Real elasticsearch/http/splunk/loki/gelf/file/kafka outputs driven through Out -> Batcher -> out with hostile field values, child/parent events, buffer reuse across batches, retries and 413 split patterns; each payload must parse to exactly the batch's deliverable events in order.",
+   "Real elasticsearch/http/splunk/loki/gelf/file/kafka outputs driven through Out -> Batcher -> out with hostile field values, child/parent events, buffer reuse across batches, retries and 413 split patterns; each payload must parse to exactly the batch's deliverable events in order. Transport-failure cases use several endpoints with dead ones (refused, reset, hang-up, 5xx) and connection cuts, gzip bodies decoded member by member.",
    "strict JSON reference parser of the harness; the Kafka client is replaced by a recorder through the verif accessor", "DESIGN.md §3 C19"), "C13": ("exploration", "runtime monitoring: crash detection (child processes with on-disk event index) and output validity (encoding/json) for every action plugin under hostile events, inside real single-action and chained pipelines",
-   "Every registered action plus k8s-multiline, 5-16 accepted configurations each, driven with directed and seeded hostile events (absent/null/bool/huge number/float/empty/long/invalid UTF-8/object/array values of the configured fields), stateful ones with time-outs; the process must survive and every output must be valid JSON that re-parses.",
+   "Every registered action plus k8s-multiline, 5-16 accepted configurations each, driven with directed and seeded hostile events (absent/null/bool/huge number/float/empty/long/invalid UTF-8/object/array values of the configured fields), stateful ones with time-outs; the process must survive and every output must be valid JSON that re-parses. Further clauses: every configuration again with 8 processors against one (decoded outputs equal), chains of event.Buf users over pooled events against a step-by-step reference, and a node-pool boundary sweep (decoding actions followed by field-adding actions, start pool sizes 16 and 128).",
    "a configuration rejected by the plugin's own validation is discarded; encoding/json decides validity", "DESIGN.md §3 C13"), "C03": ("fault_enumeration", "runtime monitoring with crash injection: the real file.d binary (build tag verif) is run, killed at enumerated crash points (hook-armed SIGKILL at commit/save/ack points, external kill -9) and restarted with its offsets file; set difference of written vs delivered line ids",
-   "Scenarios = history (appends while down, rename rotation, partial lines, 1-3 streams per file, join/discard chains, truncation matrix) x config (persistence mode, workers, buffers, batch settings) x kill plan (every crash point in both persistence modes, drawn external kills); idle is decided from file.d's own maintenance ticks; every complete line must be in the output of one of the two runs.",
+   "Scenarios = history (appends while down, rename rotation, partial lines, 1-3 streams per file, join/discard chains, truncation matrix) x config (persistence mode, workers, buffers, batch settings) x kill plan (every crash point in both persistence modes, drawn external kills); idle is decided from file.d's own maintenance ticks; every complete line must be in the output of one of the two runs. Further history families: held unterminated tails, truncation while down, namesake sources, and a new file obtaining the inode of a file that went away after the start phase.",
    "process kill stands for a crash; the file output's target file is the delivery record; the README's documented truncation caveat is outside the scenarios", "DESIGN.md §3 C03"),
 }
 
